@@ -417,6 +417,10 @@ int janet_verify(JanetFuncDef *def) {
      * computing arity + vargs, which overflows for arity = INT32_MAX. */
     if (def->arity < 0 || def->arity > sc - vargs) return 2;
 
+    /* Callers rely on 0 <= min_arity <= arity <= max_arity (fiber/new pushes
+     * min_arity arguments and expects the call to succeed). */
+    if (def->min_arity < 0 || def->min_arity > def->arity || def->arity > def->max_arity) return 10;
+
     /* Verify each instruction */
     for (i = 0; i < def->bytecode_length; i++) {
         uint32_t instr = def->bytecode[i];
